@@ -331,6 +331,12 @@ pub fn eval_config_reload(base: &Path, c: &Cfg, order: &[Doc], reload: Option<Re
             Ok(Ok(v)) if !v.is_null() => {}
             other => out.push(("free-standing-no-answer".into(), "Loose|hover".into(), format!("free-standing file: hover on its own function gives {other:?}"))),
         }
+        // find-references inside the free-standing file: the declaration and its use
+        n += 1;
+        match srv.request("textDocument/references", json!({"textDocument": {"uri": uri}, "position": {"line": p.0, "character": p.1}, "context": {"includeDeclaration": true}})) {
+            Ok(Ok(v)) if v.as_array().map_or(0, |a| a.len()) >= 2 => {}
+            other => out.push(("free-standing-no-answer".into(), "Loose|references".into(), format!("free-standing file: references of its own function (declared and called in the file) gives {other:?}"))),
+        }
         // only packages under build/packages are external: a free-standing file is editable
         n += 1;
         match srv.request("textDocument/prepareRename", json!({"textDocument": {"uri": uri}, "position": {"line": p.0, "character": p.1}})) {
